@@ -113,6 +113,10 @@ def gen_dir(seed, tier, focus):
         elif kind == "immdir":
             ops.append(["immdir", [[draw_name(ch, W, ("i", i, j)), ch.pick(W, ("iobj", i, j), ["lit", "chk", "ssk", "ssk-ro", "dir0", "dir0-ro", "unknown-imm", "unknown", "immdir", "lit2"])]
                                    for j in range(ch.randint(W, ("inents", i), 0, 4))]])
+    if focus in ("C17", "C19"):
+        # a new directory created from another directory's listing (what "cp -r" and the web API's t=mkdir-with-children do)
+        for j in range(ch.randint(W, "ncopydir", 1 if focus == "C17" else 0, 2)):
+            ops.insert(ch.randint(W, ("copydir-at", j), 2, len(ops)), ["copydir", ch.randrange(W, ("copydir-src", j), 3), ch.pick(W, ("copydir-kind", j), ["sdmf", "mdmf"])])
     if focus in ("C18",) and ch.chance("config", "blacklist", 0.3):
         # the writing gateway has an access blacklist naming some of the mutable files: it wraps them (ProhibitedNode) whenever
         # it builds a node for them, also when they are linked into a directory
@@ -363,6 +367,40 @@ def exec_dir(case):
         def res_tb(f):
             return f.getTraceback()[-500:] if isinstance(f, Failure) else repr(f)
 
+        def check_child_cap_keys(dircap_rw, children_rw, what):
+            """C17: every child's write cap is sealed under H(tag, salt, writekey of THIS directory), salt = H(tag, child write cap)
+            (hashlib + AES only; the directory's writekey is read out of its own write cap)"""
+            from cryptography.hazmat.primitives.ciphers import Cipher, algorithms, modes
+            from oracles import refhash
+            from allmydata.util import base32 as b32_
+            try:
+                writekey = b32_.a2b(dircap_rw.split(b":")[2])
+            except Exception:
+                return
+            st, raw = drive(rd.create_node_from_uri(dircap_rw)._node.download_best_version(), "raw dir download")
+            if st != "ok":
+                return
+            try:
+                ents = [split_netstrings(e_) for e_ in split_netstrings(raw)]
+            except ValueError:
+                return
+            for parts in ents:
+                if len(parts) != 4:
+                    continue
+                nm_ = parts[0].decode("utf-8")
+                rw_ = children_rw.get(nm_)
+                if not rw_ or len(parts[2]) < 48:
+                    continue
+                salt, ct = parts[2][:16], parts[2][16:-32]
+                if salt != refhash.dirnode_child_salt(rw_):
+                    bad("C17", "child-cap-salt", "%s: child %r: stored salt is not H(tag, write cap)" % (what, nm_))
+                key = refhash.dirnode_child_capkey(salt, writekey)
+                dec = Cipher(algorithms.AES(key), modes.CTR(b"\x00" * 16)).decryptor()
+                if dec.update(ct) + dec.finalize() != rw_:
+                    bad("C17", "child-cap-key", "%s: the stored write cap of child %r does not decrypt under H(tag, salt, this directory's writekey): "
+                        "it cannot be recovered from this directory's write cap" % (what, nm_))
+                probe("c17-child-cap-key-checked")
+
         def check_c18_plaintext(didx):
             """the directory bytes a read-cap holder can decrypt, and every byte on every server, contain no child write-cap"""
             d = W.dirs[didx]
@@ -422,6 +460,33 @@ def exec_dir(case):
                 continue
             if kind == "advance":
                 R.advance(op[1])
+                continue
+            if kind == "copydir":
+                if op[1] >= len(W.dirs):
+                    continue
+                src = W.dirs[op[1]]
+                st, listing = drive(dnode(op[1]).list(), "list for copydir")
+                if st != "ok":
+                    continue
+                ver = MDMF_VERSION if op[2] == "mdmf" else SDMF_VERSION
+                st, n2_ = drive(w.create_dirnode(initial_children=listing, version=ver), "create_dirnode(initial_children=listing)")
+                if st != "ok":
+                    probe("copydir-" + st)
+                    continue
+                probe("copydir-ok")
+                W.all_write_caps.add(n2_.get_uri())
+                want_rw = {nm_: e_["rw"] for nm_, e_ in src["children"].items()}
+                check_child_cap_keys(n2_.get_uri(), want_rw, "directory created from the listing of dir %d" % op[1])
+                # and through the API: a fresh gateway, the new directory's write cap
+                st, l2 = drive(rd.create_node_from_uri(n2_.get_uri()).list(), "list copy")
+                if st == "ok":
+                    for nm_, (nd_, md_) in l2.items():
+                        if nm_ in want_rw and nd_.get_write_uri() != want_rw[nm_]:
+                            bad("C19", "write-cap", "child %r of a directory created from the listing of dir %d: write cap through the new directory's write cap is %r, stored %r" % (
+                                nm_, op[1], nd_.get_write_uri(), want_rw[nm_]))
+                            bad("C17", "child-cap-unreachable", "child %r of a directory created from another directory's listing: the write cap read back through the new "
+                                "directory's own write cap is %r, not %r" % (nm_, nd_.get_write_uri(), want_rw[nm_]))
+                            break
                 continue
             if kind == "immdir":
                 ents = {}
@@ -636,6 +701,8 @@ def exec_dir(case):
             compare_listing(didx, "op %d %r" % (opi, op))
             if focus == "C18" and opi % 3 == 0:
                 check_c18_plaintext(didx)
+            if focus == "C17" and opi % 2 == 0:
+                check_child_cap_keys(W.dirs[didx]["rw"], {nm_: e_["rw"] for nm_, e_ in W.dirs[didx]["children"].items()}, "dir %d after op %d" % (didx, opi))
             if viol:
                 break
         if focus == "C18" and W.dirs and not viol:
